@@ -386,10 +386,17 @@ def rule_inventory(facts, rep, crates=None, check_stale=True):
             if derived:
                 continue
             seen_keys = {}
+            seen_copies = set()
             for h in hs:
                 n_sites += 1
                 desc = panics.describe(h, cx)
                 base_key = f"{h['kind']}:{desc}"
+                cp_of = h.get("node", {}).get("copy_of")
+                if cp_of is not None:
+                    if (base_key, cp_of) in seen_copies:
+                        n_sites -= 1
+                        continue             # another copy of the same source expression (an integer temporary substituted into its uses)
+                    seen_copies.add((base_key, cp_of))
                 k = seen_keys.get(base_key, 0)
                 seen_keys[base_key] = k + 1
                 inst = base_key if k == 0 else f"{base_key}#{k}"
